@@ -202,12 +202,58 @@ def evaluate_chain(case):
     return Outcome(True, len(case["steps"]) >= 3, sorted(set(labels)))
 
 
+def evaluate_lifted_limit(case):
+    """The same arithmetic in a fresh interpreter started with -X int_max_str_digits=0 (limit lifted), where the
+    reference is simply Python's int arithmetic.  The library must not depend on the interpreter-wide setting."""
+    import json
+    import os
+    import random as _random
+    import subprocess
+    import sys
+    from pbt.core import REPO
+    rng = _random.Random(case["seed"])
+    jobs = []
+    for _ in range(case["count"]):
+        n = rng.choice([1, 5, 17, 40, 300, 1200, 4300, 4301, 5000])
+        number = str(rng.randrange(1, 10)) + "".join(rng.choice("0123456789") for _ in range(n - 1))
+        op = rng.choice(["add", "sub", "mul", "div"])
+        jobs.append([op, number, str(rng.randrange(1 if op == "div" else 0, 10))])
+    script = (
+        "import sys, json; sys.path.insert(0, %r); import dsw\n"
+        "jobs = json.load(sys.stdin); bad = []\n"
+        "f = {'add': dsw.calculus_addition, 'sub': dsw.calculus_subtraction, 'mul': dsw.calculus_multiplication, "
+        "'div': dsw.calculus_division}\n"
+        "for op, number, base in jobs:\n"
+        "    n, b = int(number), int(base)\n"
+        "    if op == 'sub' and n < b: continue\n"
+        "    want = str(n + b) if op == 'add' else str(n - b) if op == 'sub' else str(n * b) if op == 'mul' "
+        "else [str(n // b), str(n %% b)]\n"
+        "    try: got = f[op](number=number, base=base)\n"
+        "    except Exception as exc: got = 'raised ' + type(exc).__name__\n"
+        "    if (list(got) if op == 'div' and not isinstance(got, str) else got) != want: "
+        "bad.append([op, number[:30], len(number), base, str(got)[:60]])\n"
+        "print(json.dumps(bad))\n" % REPO)
+    done = subprocess.run([sys.executable, "-X", "int_max_str_digits=0", "-c", script], input=json.dumps(jobs),
+                          capture_output=True, text=True, timeout=300, env=dict(os.environ, PYTHONHASHSEED="0"))
+    if done.returncode != 0:
+        raise AssertionError("interpreter with lifted limit failed: " + done.stderr[-300:])
+    wrong = json.loads(done.stdout.strip().splitlines()[-1])
+    if wrong:
+        return bad("with the int/str digit limit lifted (-X int_max_str_digits=0): %s(%s.. [%d digits], %s) = %s"
+                   % tuple(wrong[0]), ["lifted_limit"])
+    return Outcome(True, True, ["lifted_limit", "jobs=%d" % len(jobs)])
+
+
 SUBCHECKS = [
     SubCheck("arith", evaluate, strategy=cases, examples=(20000, 400000), shards=(16, 16),
              floors={"carry": 2000, "len>3": 5000, "operand>4": 4000, "sub": 2000, "div": 2000, "len>4300": 100, "other_thread": 1000},
              rule=RULE),
     SubCheck("call_chains", evaluate_chain, strategy=chain_cases, examples=(3000, 40000), shards=(8, 16),
              floors={"older_result_reused": 1000}, rule=RULE),
+    SubCheck("lifted_int_limit", evaluate_lifted_limit,
+             enum=(lambda tier: 2 if tier == "quick" else 16, lambda i, tier: {"seed": 31 + i, "count": 400}),
+             shards=(2, 16), exhaustive_space="fixed batches of 400 operations run in an interpreter started with "
+                                              "-X int_max_str_digits=0", rule=RULE, timeout=400.0),
 ]
 
 TECHNIQUE = "property-based testing (Hypothesis) against a Python-int reference, with schoolbook-state coverage accounting"
